@@ -92,7 +92,8 @@ Mismatch(S, e, c, o) ==
      (IF o.new = 0 \/ e.newtok = T.nissued THEN {} ELSE {"C06:reissued"}) \cup
      (IF \A i \in DOMAIN e.isrem : e.isrem[i][2] = (IF IsRemovedTok(T, e.isrem[i][1]) THEN 1 ELSE 0) THEN {} ELSE {"C06:is_removed"}) \cup
      (IF e.cap >= T.capLow /\ (o.capKeep => e.cap = e.prevcap) THEN {} ELSE {"C13:capacity"}) \cup
-     (IF ~Has(e, "drops") \/ Rng(e.drops) = o.drops THEN {} ELSE {"C08:drops"}))
+     (IF ~Has(e, "drops") \/ Rng(e.drops) = o.drops THEN {} ELSE {"C08:drops"}) \cup
+     (IF ~Has(e, "idat") \/ (e.idat = IdAtSeq(T.count, T.live, T.tok) /\ e.empty = (T.count = 0)) THEN {} ELSE {"C11:get_node_id_at"}))
 
 (***************************************************************************)
 (* Events that are not calls of the modelled API                           *)
